@@ -51,7 +51,7 @@ const (
 	tickP    = 50 * time.Millisecond
 	maxTicks = 90
 	forever  = 100000 * time.Hour
-	watchdog = 60 * time.Second // wall clock; expiry is inconclusive
+	watchdog = 180 * time.Second // wall clock; expiry is inconclusive
 )
 
 type timeline struct {
